@@ -103,7 +103,14 @@ func VerifC08Close(v *verifrt.T) {
 	bssid := message.Ssid{7, v.U32("b", 0), v.U32("b", 1)}
 	e.ps.Subscribe(b, &event.Subscription{Conn: b.luid, Ssid: bssid, Channel: []byte("b/")})
 	willFlag := v.Bool("willflag")
-	a.onConnect(&mqtt.Connect{WillFlag: willFlag, WillTopic: []byte(e.will + "/will/"), WillMessage: []byte("gone"), Username: []byte("alice")})
+	// the will channel may be a wildcard pattern under the watched channel: nothing can be
+	// published to a pattern, so such a will never fires
+	willWild := v.Bool("will-on-a-pattern")
+	willTopic := e.will + "/will/"
+	if willWild {
+		willTopic = e.will + "/will/+/"
+	}
+	a.onConnect(&mqtt.Connect{WillFlag: willFlag, WillTopic: []byte(willTopic), WillMessage: []byte("gone"), Username: []byte("alice")})
 
 	n := v.Bound("ops")
 	var ops []c08op
@@ -159,6 +166,7 @@ func VerifC08Close(v *verifrt.T) {
 	// last will: exactly once iff supplied with a key that allows publishing to the will channel
 	wills := len(csock.writes) - watcherBefore
 	wantWill := verifrt.And(willFlag, verifrt.And(e.willPerm&security.AllowWrite != 0, e.willPerm&security.AllowExtend == 0))
+	wantWill = verifrt.And(wantWill, !willWild)
 	if wills == 0 {
 		v.Assert(verifrt.Not(wantWill), "C08.close.will-published")
 	} else {
